@@ -14,8 +14,50 @@ use ndarray_interp::verif_hooks;
 use nimc::{catch, main_with, run_jobs, Ctx, JobOut, Json, Meta, Summary};
 use num_traits::{Num, NumCast, ToPrimitive};
 
+/// Heap accounting per thread: bytes allocated minus bytes released by the current thread. The fast
+/// path may differ from the general path in speed only, so neither may keep memory after a call.
+struct Counting;
+thread_local! {
+    static LIVE: std::cell::Cell<i64> = const { std::cell::Cell::new(0) };
+}
+unsafe impl std::alloc::GlobalAlloc for Counting {
+    unsafe fn alloc(&self, l: std::alloc::Layout) -> *mut u8 {
+        let p = unsafe { std::alloc::System.alloc(l) };
+        if !p.is_null() {
+            let _ = LIVE.try_with(|c| c.set(c.get() + l.size() as i64));
+        }
+        p
+    }
+    unsafe fn dealloc(&self, p: *mut u8, l: std::alloc::Layout) {
+        unsafe { std::alloc::System.dealloc(p, l) };
+        let _ = LIVE.try_with(|c| c.set(c.get() - l.size() as i64));
+    }
+}
+#[global_allocator]
+static ALLOC: Counting = Counting;
+
+fn live_bytes() -> i64 {
+    LIVE.try_with(|c| c.get()).unwrap_or(0)
+}
+
+/// bytes still held after `calls` repetitions of `f` (whose results are dropped); None if it panics
+fn retained(calls: usize, mut f: impl FnMut()) -> Option<i64> {
+    let before = live_bytes();
+    let r = std::panic::catch_unwind(std::panic::AssertUnwindSafe(|| {
+        for _ in 0..calls {
+            f();
+        }
+    }));
+    let after = live_bytes();
+    r.ok().map(|_| after - before)
+}
+
 /// what one instantiation observed
 pub struct Rec {
+    /// heap bytes still held after 4 more calls of interp_array + interp_array_into each (results
+    /// dropped): static query type / dynamic rank-1 query with the same contents
+    pub retained: Option<i64>,
+    pub retained_general: Option<i64>,
     /// number of executed casts during interp_array
     pub casts: u64,
     /// number of executed casts during interp_array_into (separate call)
@@ -214,7 +256,23 @@ macro_rules! inst1 {
             gshape.extend_from_slice(&shape[1..]);
             let mut gbuf = ArrayD::from_elem(IxDyn(&gshape), el::<$t>(0.0));
             let general_into = catch(|| ip.interp_array_into(&qd, gbuf.view_mut())).and_then(|r| r.map(|_| to_bits(&gbuf)).map_err(|e| e.to_string()));
+            let (retained, retained_general) = if variant == 5 {
+                (None, None)
+            } else {
+                (
+                    retained(4, || {
+                        drop(ip.interp_array(&qa));
+                        drop(ip.interp_array_into(&qa, buf.view_mut().into_dimensionality().expect("buffer rank")));
+                    }),
+                    retained(4, || {
+                        drop(ip.interp_array(&qd));
+                        drop(ip.interp_array_into(&qd, gbuf.view_mut()));
+                    }),
+                )
+            };
             Some(Rec {
+                retained,
+                retained_general,
                 casts,
                 casts_into,
                 shape: batch.as_ref().ok().and_then(|r| r.as_ref().ok()).map(|a| a.shape().to_vec()).unwrap_or_default(),
@@ -271,7 +329,23 @@ macro_rules! inst2 {
             gshape.extend_from_slice(&shape[2..]);
             let mut gbuf = ArrayD::from_elem(IxDyn(&gshape), el::<$t>(0.0));
             let general_into = catch(|| ip.interp_array_into(&qxd, &qyd, gbuf.view_mut())).and_then(|r| r.map(|_| to_bits(&gbuf)).map_err(|e| e.to_string()));
+            let (retained, retained_general) = if variant == 5 {
+                (None, None)
+            } else {
+                (
+                    retained(4, || {
+                        drop(ip.interp_array(&qxa, &qya));
+                        drop(ip.interp_array_into(&qxa, &qya, buf.view_mut().into_dimensionality().expect("buffer rank")));
+                    }),
+                    retained(4, || {
+                        drop(ip.interp_array(&qxd, &qyd));
+                        drop(ip.interp_array_into(&qxd, &qyd, gbuf.view_mut()));
+                    }),
+                )
+            };
             Some(Rec {
+                retained,
+                retained_general,
                 casts,
                 casts_into,
                 shape: batch.as_ref().ok().and_then(|r| r.as_ref().ok()).map(|a| a.shape().to_vec()).unwrap_or_default(),
@@ -429,6 +503,18 @@ fn body(ctx: &Ctx) -> (Summary, Meta) {
                 );
             }
         }
+        // unobservable except in speed: what the calls leave behind on the heap is the same
+        if let (Some(a), Some(g)) = (r.retained, r.retained_general) {
+            out.evals += 1;
+            out.outcome(format!("retained-heap:{}", if a == g { "same" } else { "differs" }));
+            if a != g {
+                out.violate(
+                    format!("{name}:retained-heap"),
+                    format!("8 calls with the static query type leave {a} bytes of heap allocated, the same calls with a dynamic rank-1 query {g} bytes"),
+                    case(),
+                );
+            }
+        }
         if variant >= 1 && variant != 3 && variant != 5 {
             // with an out-of-range element all paths must agree on the verdict (message included)
             let v = |x: &Result<Vec<u64>, String>| x.as_ref().map(|_| ()).map_err(|e| e.clone());
@@ -456,7 +542,7 @@ fn body(ctx: &Ctx) -> (Summary, Meta) {
         out
     }));
     let meta = Meta {
-        rule: "every instantiation of {data Ix1..Ix6, IxDyn} x {query Ix0, Ix1, Ix2 (m,1), Ix3 (1,m,1), IxDyn of runtime rank 1} x {owned, view, shared storage of data, axes and queries; in 2-D xs and ys (and x, y) get different storage kinds} x {f64, f32, i32, i64} x {Interp1D, Interp2D} is executed with Linear / Bilinear. The hook inside cast_unchecked asserts type_name / size / align equality on every executed cast and counts them: 2 (Interp1D) / 3 (Interp2D) casts iff the static query type is Ix1, 0 otherwise, for interp_array and interp_array_into alike; outputs of the fast path, of element-wise interp and of the general path (dynamic rank-1 query) are bit-identical. Each instantiation is run seven times: all queries in range; one (not the last) element out of range; data with a zero-length last trailing axis plus an out-of-range element; +0.0 and -0.0 queries next to each other on data whose first-knot samples are -0.0 (float types); one element one ulp (one unit) above the last knot; a buffer with one row too many plus an out-of-range element (fast and general *_into must fail in the same way); the query stored back to front (negative stride) with two different out-of-range elements - the verdicts (Ok / the OutOfBounds message) of all paths must agree. Phase edge-knot-batches (shared with C09): on 2688 axes with knots at round positions the fast path (static rank-1 batch), the general path (dynamic rank-1 batch) and single queries before and after the batches agree bit for bit. Non-trivial = instantiation whose static query type is Ix1 (the cast is executed).".into(),
+        rule: "every instantiation of {data Ix1..Ix6, IxDyn} x {query Ix0, Ix1, Ix2 (m,1), Ix3 (1,m,1), IxDyn of runtime rank 1} x {owned, view, shared storage of data, axes and queries; in 2-D xs and ys (and x, y) get different storage kinds} x {f64, f32, i32, i64} x {Interp1D, Interp2D} is executed with Linear / Bilinear. The hook inside cast_unchecked asserts type_name / size / align equality on every executed cast and counts them: 2 (Interp1D) / 3 (Interp2D) casts iff the static query type is Ix1, 0 otherwise, for interp_array and interp_array_into alike; outputs of the fast path, of element-wise interp and of the general path (dynamic rank-1 query) are bit-identical. Each instantiation is run seven times: all queries in range; one (not the last) element out of range; data with a zero-length last trailing axis plus an out-of-range element; +0.0 and -0.0 queries next to each other on data whose first-knot samples are -0.0 (float types); one element one ulp (one unit) above the last knot; a buffer with one row too many plus an out-of-range element (fast and general *_into must fail in the same way); the query stored back to front (negative stride) with two different out-of-range elements - the verdicts (Ok / the OutOfBounds message) of all paths must agree. A counting allocator (per thread) compares the heap bytes still held after 8 further calls with the static query type and with the dynamic query (results dropped): they must be equal. Phase edge-knot-batches (shared with C09): on 2688 axes with knots at round positions the fast path (static rank-1 batch), the general path (dynamic rank-1 batch) and single queries before and after the batches agree bit for bit. Non-trivial = instantiation whose static query type is Ix1 (the cast is executed).".into(),
         bounds: format!("{} instantiations (the whole finite table)", TABLE.len()),
         assumptions: vec!["type_name equality is a monitor for type identity, not a UB detector".into()],
         extra: vec![],
